@@ -187,6 +187,12 @@ def harness(args, timeout=900):
     if rc < 0:
         raise Stalled("harness %s was killed by signal %s (out of memory?)" % (" ".join(args[:3]), -rc))
     lines = [l for l in out.split("\n") if l.startswith("{")]
+    if rc == 2 and not lines:
+        # the Go runtime gave up inside the harness process: implementation calls run under recover(), so what is left is a
+        # fatal error (stack overflow, concurrent map access, out of memory), which no recover() catches
+        fatal = [l for l in out.split("\n") if l.startswith("fatal error:") or l.startswith("runtime: goroutine stack exceeds")]
+        if fatal:
+            raise Stalled("harness %s died of a fatal runtime error while running the implementation: %s" % (" ".join(args[:3]), " / ".join(fatal[:2])))
     if rc != 0 or not lines:
         raise Broken("harness %s failed (rc=%s):\n%s" % (args[0], rc, out[-3000:]))
     return json.loads(lines[-1])
